@@ -25,10 +25,20 @@ func verifDigits(n int) (string, uint32) {
 // VerifC01DoHJSON: the JSON API builds exactly one question with the requested name,
 // type, class and flags, and rejects every invalid parameter value.
 //
-//verif:harness name=H01e-doh-json tier=quick,thorough bounds="type as 1..2 symbolic decimal digits, a mnemonic (A, aaaa, TxT, bogus) or absent; class absent / IN / 3; cd, do from the accepted spellings, absent, or an invalid word" reach=built,rejected maxpaths=200000
+//verif:harness name=H01e-doh-json tier=quick,thorough bounds="name in lower case, mixed case or with a symbolic letter of either case; type as 1..2 symbolic decimal digits, a mnemonic (A, aaaa, TxT, bogus) or absent; class absent / IN / 3; cd, do from the accepted spellings, absent, or an invalid word" reach=built,rejected maxpaths=200000
 func VerifC01DoHJSON() {
 	q := url.Values{}
-	q.Set("name", "example.org")
+	// the name as the client spelled it: lower case, mixed case, or with a symbolic letter
+	name := "example.org"
+	switch verifChoice(3) {
+	case 1:
+		name = "WwW.ExAmPlE.oRg."
+	case 2:
+		c := nondetU8()
+		verifAssume(verifOr(verifAnd(c >= 'A', c <= 'Z'), verifAnd(c >= 'a', c <= 'z')))
+		name = string([]byte{'n', c}) + ".Example.org"
+	}
+	q.Set("name", name)
 	wantType, wantClass := uint16(dns.TypeA), uint16(dns.ClassINET)
 	valid := true
 	switch verifChoice(4) {
@@ -75,7 +85,7 @@ func VerifC01DoHJSON() {
 	m := &dns.Msg{}
 	verifAssert("built-message-decodes", m.Unpack(b) == nil)
 	verifAssert("exactly-one-question", len(m.Question) == 1)
-	verifAssert("question-as-requested", m.Question[0].Name == "example.org." && m.Question[0].Qtype == wantType && m.Question[0].Qclass == wantClass)
+	verifAssert("question-as-requested", m.Question[0].Name == dns.Fqdn(name) && m.Question[0].Qtype == wantType && m.Question[0].Qclass == wantClass)
 	verifAssert("flags-as-requested", m.CheckingDisabled == cd && m.RecursionDesired && !m.Response)
 	o := m.IsEdns0()
 	verifAssert("do-bit-as-requested", (o != nil && o.Do()) == do)
